@@ -552,6 +552,10 @@ func (fr *Frame) checkPurity(li *loopInfo) {
 						case *ssa.FieldAddr:
 							a = y.X
 							continue
+						case *ssa.Slice:
+							// a slice of a package-level array shares its storage
+							a = y.X
+							continue
 						}
 						break
 					}
